@@ -29,3 +29,26 @@ Theorem C07_full_compaction_no_tombstones :
     find (merge_range false false upper (sget fm upper no_below)) k <> Some ODel.
 Proof. exact compact_full_no_del. Qed.
 Print Assumptions C07_full_compaction_no_tombstones.
+
+(* the level arithmetic of calcPartialCompactionStart: the model computes determineExponent
+   with fuel; for every factor the repaired code can work with (>= 2: eff_mult) and every
+   segment size below 2^64 the fuel never decides ... *)
+Theorem C07_level_exponent_fuel_suffices :
+  forall (mult seg cur : N) (lvl extra : nat),
+    (2 <= mult)%N -> (seg < 2 ^ 64)%N ->
+    det_exp_aux mult seg (cur * mult) lvl (64 + extra) = determine_exponent mult seg cur lvl.
+Proof. exact determine_exponent_fuel_suffices. Qed.
+Print Assumptions C07_level_exponent_fuel_suffices.
+
+Theorem C07_effective_multiplier_at_least_two : forall m, (2 <= eff_mult m)%N.
+Proof. exact eff_mult_ge_2. Qed.
+Print Assumptions C07_effective_multiplier_at_least_two.
+
+(* ... F40 (repaired): with CompactionLevelMultiplier = 1 the pinned code used the factor 1,
+   for which the fuel ALWAYS decides - the loop in the code never ends, the persister spins,
+   Close never returns *)
+Theorem C07_refuted_pre_fix_multiplier_one_never_stops_F40 :
+  forall (seg sz : N) (lvl fuel : nat),
+    (0 < sz)%N -> (sz <= seg)%N -> det_exp_aux 1 seg sz lvl fuel = (lvl + fuel)%nat.
+Proof. exact det_exp_mult_one_never_stops. Qed.
+Print Assumptions C07_refuted_pre_fix_multiplier_one_never_stops_F40.
